@@ -411,12 +411,9 @@ HAND_HIST = HI.HAND_CASES
 
 
 def typed_grid(seed, thorough=False):
-    """The deterministic grids: shape-boundary calls (all), adversarial programs (all), Optional/Sequence routes
-    (quick: the half selected by the seed's parity over the module/companion variants; thorough: all)."""
-    opt = TY.all_optseq_cases()
-    if not thorough:
-        opt = [c for i, c in enumerate(opt) if (i + seed) % 2 == 0]
-    return TY.all_cases() + ADV.all_cases() + opt
+    """The deterministic grids (all cases on every tier): shape-boundary calls, adversarial programs,
+    Optional/Sequence routes."""
+    return TY.all_cases() + ADV.all_cases() + TY.all_optseq_cases()
 
 
 
@@ -904,9 +901,9 @@ def run(ck: core.Check):
             ck.broken("correspondence", "C02 internal operator opset_req not observable", f"{type(e).__name__}: {e}")
 
     # generated programs (oracle on all; naming correspondence on the 'naming' slice)
-    n_oracle = pick(1000, 12000)
+    n_oracle = pick(1300, 12000)
     n_naming = pick(350, 5000)
-    n_hist = pick(130, 1500)
+    n_hist = pick(200, 1500)
     tmode = "typed-thorough" if ck.thorough else "typed"
     n_typed = len(typed_grid(ck.seed, ck.thorough)) + pick(60, 2000)
     tasks = ([(ck.seed, i, "oracle") for i in range(n_oracle)] + [(ck.seed, 10**6 + i, "naming") for i in range(n_naming)]
